@@ -90,6 +90,22 @@ void universe_build(struct universe *u, struct rng *r, int np, int nk)
 	for (int i = 0; i < N_SKI; i++)
 		for (int b = 0; b < SKI_SIZE; b++)
 			u->skis[i][b] = (uint8_t)(0x10 * (i + 1) + b + (rnd32(r) & 1));
+	/* two IPv6 records whose address and AS fields, as they travel in an IPv6 Prefix PDU (bytes 12..31), are the image
+	 * of a complete IPv4 Prefix PDU announcing 192.168.x.0/24 - one per protocol version.  A client that loses its place
+	 * in the stream by 12 bytes finds a well-formed PDU there */
+	for (int v = 0; v < 2 && u->np + 1 < np; v++) {
+		struct prec p;
+
+		memset(&p, 0, sizeof(p));
+		p.fam = 6;
+		p.a[0] = ((uint32_t)v << 24) | 0x00040000u; /* version, type 4, zero */
+		p.a[1] = 20;                               /* length */
+		p.a[2] = 0x01181800u;                      /* flags announce, /24-24, zero */
+		p.a[3] = 0xc0a80000u | (rnd32(r) & 0xff00u);
+		p.len = p.maxlen = 128;
+		p.asn = 65000;
+		u->p[u->np++] = p;
+	}
 	while (u->np < np) {
 		struct prec p;
 		int t = (int)rndn(r, 3);
